@@ -511,7 +511,8 @@ class Machine:
             return Arr([self.make_value(st, ty['elem'], '%s[%d]' % (name, i), depth + 1) for i in range(ty['len'])])
         if k == 'adt':
             ad = self.prog.adts.get(ty.get('adt'))
-            if ad and ad['kind'] == 'struct' and depth < 4 and ad['krate'] in self.prog_ws():
+            if ad and (ad['kind'] == 'struct' or (ad['kind'] == 'enum' and len(ad['variants']) == 1)) and depth < 4 and ad['krate'] in self.prog_ws():
+                # (a one-variant enum has no discriminant to split on: expand it like a struct)
                 return self.make_variant(st, ty, ad, 0, name, depth)
         return Atom(name, ty)
 
